@@ -128,8 +128,8 @@ struct Compiler {
     upvalues: Vec<Upvalue>,
     scope_depth: usize,
     lambda_count: usize,
-    in_try_block: bool,
-    loop_stack: Vec<(usize, usize)>,
+    try_depth: usize,
+    loop_stack: Vec<(usize, usize, usize)>,
     break_stack: Vec<Vec<usize>>,
 }
 
@@ -163,7 +163,7 @@ impl Compiler {
             upvalues: Vec::new(),
             scope_depth: 0,
             lambda_count: 0,
-            in_try_block: false,
+            try_depth: 0,
             loop_stack: Vec::new(),
             break_stack: Vec::new(),
         }
@@ -249,7 +249,7 @@ impl Compiler {
 
     fn push_loop(&mut self) {
         let loop_start = self.chunk.code.len();
-        self.loop_stack.push((loop_start, self.scope_depth));
+        self.loop_stack.push((loop_start, self.scope_depth, self.try_depth));
         self.break_stack.push(Vec::new());
     }
 
@@ -273,7 +273,7 @@ impl Compiler {
         Ok(())
     }
 
-    fn current_loop_header(&self) -> Option<(usize, usize)> {
+    fn current_loop_header(&self) -> Option<(usize, usize, usize)> {
         self.loop_stack.last().copied()
     }
 }
@@ -803,7 +803,7 @@ impl<'a> Parser<'a> {
         self.mark_initialised();
 
         self.compiler_mut().push_loop();
-        let (loop_start, _) = self
+        let (loop_start, _, _) = self
             .compiler()
             .current_loop_header()
             .expect("Expected usize.");
@@ -867,21 +867,21 @@ impl<'a> Parser<'a> {
             }
             self.expression();
             self.consume(TokenKind::SemiColon, "Expected ';' after return value.");
-            if self.compiler().in_try_block {
-                self.emit_byte(OpCode::JumpFinally as u8);
-            }
+            self.emit_try_exits(OpCode::JumpFinally as u8, 0);
             self.emit_byte(OpCode::Return as u8);
         }
     }
 
     fn break_statement(&mut self) {
-        let scope_depth = match self.compiler().current_loop_header() {
-            Some((_, depth)) => depth,
+        let (scope_depth, try_depth) = match self.compiler().current_loop_header() {
+            Some((_, depth, try_depth)) => (depth, try_depth),
             None => {
                 self.compiler_error(CompilerError::InvalidControlStatement);
                 return;
             }
         };
+        // Remove the handlers of the try blocks being left.
+        self.emit_try_exits(OpCode::PopExcHandler as u8, try_depth);
         // Discard the locals of the scopes being left before jumping out of the loop.
         self.emit_scope_end(false, scope_depth);
         let break_pos = self.emit_jump(OpCode::Jump);
@@ -896,13 +896,14 @@ impl<'a> Parser<'a> {
     }
 
     fn continue_statement(&mut self) {
-        let (jump_target, scope_depth) = match self.compiler().current_loop_header() {
-            Some((pos, depth)) => (pos, depth),
+        let (jump_target, scope_depth, try_depth) = match self.compiler().current_loop_header() {
+            Some(header) => header,
             None => {
                 self.error("Cannot use 'continue' statement outside of loop body.");
                 return;
             }
         };
+        self.emit_try_exits(OpCode::PopExcHandler as u8, try_depth);
         self.emit_scope_end(false, scope_depth);
         self.emit_loop(jump_target);
         self.consume(TokenKind::SemiColon, "Expected ';' after 'continue'.");
@@ -915,8 +916,7 @@ impl<'a> Parser<'a> {
     }
 
     fn try_statement(&mut self) {
-        let prev_in_try_block = self.compiler().in_try_block;
-        self.compiler_mut().in_try_block = true;
+        self.compiler_mut().try_depth += 1;
 
         self.emit_byte(OpCode::PushExcHandler as u8);
         let handler_catch_arg_pos = self.chunk().code.len();
@@ -928,7 +928,7 @@ impl<'a> Parser<'a> {
         self.begin_scope();
         self.block();
         self.end_scope();
-        self.compiler_mut().in_try_block = prev_in_try_block;
+        self.compiler_mut().try_depth -= 1;
 
         self.emit_byte(OpCode::PopExcHandler as u8);
         let catch_jump_pos = self.emit_jump(OpCode::Jump);
@@ -1128,15 +1128,21 @@ impl<'a> Parser<'a> {
         self.chunk().code.len() - 2
     }
 
+    /// Emits `opcode` once for every try block of the current function that encloses this point but not the point
+    /// at try-nesting depth `outer_try_depth`.
+    fn emit_try_exits(&mut self, opcode: u8, outer_try_depth: usize) {
+        for _ in outer_try_depth..self.compiler().try_depth {
+            self.emit_byte(opcode);
+        }
+    }
+
     fn emit_return(&mut self) {
         if self.compiler().kind == FunctionKind::Initialiser {
             self.emit_bytes([OpCode::GetLocal as u8, 0]);
         } else {
             self.emit_byte(OpCode::Nil as u8);
         }
-        if self.compiler().in_try_block {
-            self.emit_byte(OpCode::JumpFinally as u8);
-        }
+        self.emit_try_exits(OpCode::JumpFinally as u8, 0);
         self.emit_byte(OpCode::Return as u8);
     }
 
